@@ -153,3 +153,98 @@ func checkCleanupWired(r *verifsim.Run) {
 		r.Probe("static-startup-cleanup-wired")
 	}
 }
+
+// checkBadFrameBranch: static side check for C13's "asks the camera daemon to restart the camera": the
+// D-Bus calls cannot be observed (no system bus in the simulation), so the source of handleConn is
+// checked for them: the branch taken for *lepton3.BadFrameErr must queue the bad-thermal-frame event
+// and call leptondController.RestartCamera.
+var badBranch struct {
+	done   bool
+	msg    string
+	phrase string // text of the unconditional log line of the bad-frame branch ("" if it has none)
+}
+
+func checkBadFrameBranch(r *verifsim.Run) {
+	loadBadFrameBranch()
+	if badBranch.msg != "" {
+		r.Violate("C13", "C13.reported", "static:restart-request", "%s (static check of cmd/thermal-recorder/main.go)", badBranch.msg)
+	} else {
+		r.Probe("static-bad-frame-branch-checked")
+	}
+}
+
+func loadBadFrameBranch() {
+	if !badBranch.done {
+		badBranch.done = true
+		fset := token.NewFileSet()
+		f, err := parser.ParseFile(fset, filepath.Join(repoRoot(), "cmd/thermal-recorder/main.go"), nil, 0)
+		if err != nil {
+			badBranch.msg = "cannot parse main.go: " + err.Error()
+		} else {
+			found := false
+			ast.Inspect(f, func(n ast.Node) bool {
+				ifs, ok := n.(*ast.IfStmt)
+				if !ok || ifs.Init == nil {
+					return true
+				}
+				// if _, isBadFrame := err.(*lepton3.BadFrameErr); isBadFrame { ... }
+				isBad := false
+				ast.Inspect(ifs.Init, func(m ast.Node) bool {
+					if ta, ok := m.(*ast.TypeAssertExpr); ok {
+						if st, ok := ta.Type.(*ast.StarExpr); ok {
+							if se, ok := st.X.(*ast.SelectorExpr); ok && se.Sel.Name == "BadFrameErr" {
+								isBad = true
+							}
+						}
+					}
+					return true
+				})
+				if !isBad {
+					return true
+				}
+				calls := map[string]bool{}
+				ast.Inspect(ifs.Body, func(m ast.Node) bool {
+					if c, ok := m.(*ast.CallExpr); ok {
+						if se, ok := c.Fun.(*ast.SelectorExpr); ok {
+							if id, ok := se.X.(*ast.Ident); ok {
+								calls[id.Name+"."+se.Sel.Name] = true
+							}
+						}
+					}
+					return true
+				})
+				if calls["eventclient.AddEvent"] && calls["leptondController.RestartCamera"] {
+					found = true
+				}
+				// the branch's own unconditional log line (if it has one) is the run-time witness that the
+				// branch was taken; its text is read from the source, never assumed
+				for _, st := range ifs.Body.List {
+					es, ok := st.(*ast.ExprStmt)
+					if !ok {
+						continue
+					}
+					c, ok := es.X.(*ast.CallExpr)
+					if !ok || len(c.Args) != 1 {
+						continue
+					}
+					se, ok := c.Fun.(*ast.SelectorExpr)
+					if !ok {
+						continue
+					}
+					if id, ok := se.X.(*ast.Ident); !ok || id.Name != "log" || !strings.HasPrefix(se.Sel.Name, "Print") {
+						continue
+					}
+					if lit, ok := c.Args[0].(*ast.BasicLit); ok && lit.Kind == token.STRING {
+						if v, err := strconv.Unquote(lit.Value); err == nil && len(v) > 8 && !strings.Contains(v, "%") {
+							badBranch.phrase = strings.TrimSpace(v)
+						}
+					}
+				}
+				return true
+			})
+			if !found {
+				badBranch.msg = "handleConn has no branch for *lepton3.BadFrameErr that queues the event and calls leptondController.RestartCamera"
+			}
+		}
+	}
+}
